@@ -53,6 +53,18 @@ int fix_problem(e2fsck_t ctx, problem_t code, struct problem_context *pctx)
 int e2fsck_dir_info_set_dotdot(e2fsck_t ctx, ext2_ino_t ino, ext2_ino_t dotdot)
 { (void) ctx; (void) ino; (void) dotdot; return 0; }
 
+#ifndef VF_REPLAY
+/* STUB: strnlen() (CBMC has no model): byte loop */
+size_t strnlen(const char *s, size_t n)
+{
+	size_t i;
+	for (i = 0; i < n && i < 256; i++)
+		if (!s[i])
+			return i;
+	return n;
+}
+#endif
+
 /* the on-disk format's rule for one directory entry at offset off of a block of max bytes */
 static int ref_dirent_bad(unsigned int off, unsigned int max, unsigned int rec_len, unsigned int name_len)
 {
